@@ -8,7 +8,7 @@ from vlib import coq
 from vlib.refloop import run_ref
 
 GENERATORS = []
-COQ_TARGETS = ['Cursor/BinaryCorr.vo']
+COQ_TARGETS = ['Cursor/BinaryCorr.vo', 'Passes/GcdaCorr.vo']
 RULE = ('state probes: every (index,chunk,instances) with index<instances<=NMAX, 1<=chunk<=instances, '
         'advance/end/real_chunk/advance_on_success(0..n+1) of the real BinaryState vs the model; '
         'monotone runs: real LinesPass("None") / LineMarkersPass under the reference loop for every '
@@ -19,7 +19,7 @@ RULE = ('state probes: every (index,chunk,instances) with index<instances<=NMAX,
 TRUSTED = ['hand-written model coq/Cursor/BinaryState.v tied by correspondence (this run) to cvise/passes/abstract.py BinaryState, lines.py, line_markers.py',
            'reference loop tools/vlib/refloop.py stands for the sequential driver (C02 ties it to TestManager)']
 ASSUMPTIONS = ['int(chunk/2) goes through a float: exact below 2^53 instances',
-               'ifs/clang/gcda use the same BinaryState; their tools are oracles (C15 checks the clang driving)']
+               'ifs/clang use the same BinaryState, gcda the same advance with a fresh cursor after each accept (modelled in Passes/Gcda.v); their tools are oracles (C15 checks the clang driving); a gcda file is header + records at the offsets gcov-dump reports']
 
 
 def mk_state(i, c, n):
@@ -205,12 +205,38 @@ def gcda_case(ctx, rnd, n, req):
         data = open(c, 'rb').read()
         return wellformed(data) and reqs <= set(gcda_present(data))
     pass_ = GCDABinaryPass(None, {'gcov-dump': os.path.join(STANDINS, 'gcov-dump')})
-    steps, final, reason = run_ref(pass_, p, interesting, ctx.tmp, observe=lambda st: (st.index, st.end(), st.instances, list(st.functions)),
+    steps, final, reason = run_ref(pass_, p, interesting, ctx.tmp, observe=lambda st: (st.index, st.end(), st.instances, list(st.functions), st.chunk),
                                    max_steps=4 * (n + 2) * (n + 3) + 40, continue_after_exception=True)
     if reason == 'max_steps':
         return text, 'more candidates than four times the proved bound of one sweep sequence: the pass does not terminate'
+    gc = getattr(ctx, 'gcda_corr', None)
+    if gc is not None and all(s.result.startswith('OK') and s.after is not None for s in steps):
+        # model side (Passes/Gcda.v): each candidate's bytes from (file bytes, offsets held by the cursor, cursor); the same
+        # candidate through the record view (the two sides of C06_gcda_candidate_is_record_cut); the offsets of
+        # header ++ records; the whole run (fresh cursor after every accept) on the records
+        def nl(xs):
+            return '[' + '; '.join(str(int(x)) for x in xs) + ']'
+
+        def nll(xss):
+            return '[' + '; '.join(nl(x) for x in xss) + ']'
+
+        def split_recs(data):
+            parts = data.split(b'\n')
+            return list(parts[0] + b'\n'), [list(x + b'\n') for x in parts[1:-1]]
+        out = [len(gcda_present(final))] + gcda_present(final)
+        for s in steps:
+            i, e, inst, funcs, chunk = s.state_repr
+            hdr, recs = split_recs(s.before)
+            cur = f'({i}, {chunk}, {inst})'
+            gc['tr'].append((f'({nl(s.before)}, {nl(funcs)}, {cur})', list(s.after)))
+            if i < len(recs):
+                gc['rec'].append((f'({nl(hdr)}, {nll(recs)}, {cur})', list(s.after)))
+            gc['offs'].append((f'({nl(hdr)}, {nll(recs)})', list(funcs)))
+            out += [i, e, inst, 1 if s.accepted else 0]
+        ids = [[int(l[1:].split(':')[0])] for l in text.split('\n') if l.startswith('F')]
+        gc['run'].append((f'({nll(ids)}, {nl(sorted(reqs))})', out))
     for s in steps:
-        i, e, inst, funcs = s.state_repr
+        i, e, inst, funcs, _chunk = s.state_repr
         real = len(gcda_present(s.before))
         if not (0 <= i < e <= inst) or inst != real:
             return text, f'range [{i},{e}) with a cursor holding {inst} functions; the file holds {real}'
@@ -390,6 +416,7 @@ def explore(ctx):
         if why:
             ctx.violation('binary-ifs-mono', f'ifs on {text!r}: {why}', {'kind': 'ifs', 'text': text, 'n': n, 'param': req})
     # coverage data: GCDABinaryPass with the gcov-dump stand-in, function records of different sizes
+    ctx.gcda_corr = {'tr': [], 'rec': [], 'offs': [], 'run': []}
     for n in range(1, 5 if ctx.quick() else 7):
         for r in range(0, n + 1):
             for req in itertools.combinations(range(n), r):
@@ -400,6 +427,17 @@ def explore(ctx):
                     ctx.nontriv(('gcda', text, req))
                 if why:
                     ctx.violation('binary-gcda-mono', f'gcda-binary on {text!r} required {list(req)}: {why}', {'kind': 'gcda', 'n': n, 'param': list(req)})
+    # the real gcda candidates / cursor logs / final files against the model of Passes/Gcda.v, evaluated inside Coq
+    gimports = imports + ['From CV Require Import Passes.Gcda Passes.GcdaCorr.']
+    for key, fn in (('tr', 'gcda_tr_case'), ('rec', 'gcda_rec_case'), ('offs', 'gcda_offs_case'), ('run', 'gcda_run_case')):
+        cs = ctx.gcda_corr[key]
+        badg = coq.corr_eval('c06gcda' + key, gimports, fn, cs, shard=300)
+        ctx.corr_cases += len(cs)
+        ctx.corr_disagree += len(badg)
+        ctx.count(f'gcda:model:{key}', len(cs))
+        for b in badg[:5]:
+            ctx.broke('correspondence', f'{fn} vs GCDABinaryPass', f'case {cs[b][0][:200]} impl {cs[b][1][:60]}')
+    ctx.gcda_corr = None
     # the cursors of the real IfPass when every candidate is rejected, against the model for which C06_ifs_tries_both_values is proved
     from cvise.passes.ifs import IfPass
     ifs_cases = []
@@ -492,11 +530,11 @@ def replay(ctx, payload):
 LEVEL_TEXT = ('Machine-checked theorems (Coq, closed under the global context) about a model of BinaryState and the '
               'sequential reduction loop: for every list, every verdict function and every required predicate — '
               'ranges in bounds, termination within (n+1)(n+2) candidates, exact result for monotone tests, all '
-              'singles tried and sweeps tiling 0..n when nothing was accepted, no skip after an accept; the IfPass cursor offers every range with both values. The model is '
-              'tied to the real BinaryState / LinesPass / LineMarkersPass on every run by a correspondence check '
+              'singles tried and sweeps tiling 0..n when nothing was accepted, no skip after an accept; the IfPass cursor offers every range with both values; for gcda files the byte-level candidate built from the reported offsets is the record-level cut (every header, record sizes, cursor), is strictly shorter, and the pass\'s restarting loop is exact for monotone tests. The model is '
+              'tied to the real BinaryState / LinesPass / LineMarkersPass / GCDABinaryPass on every run by a correspondence check '
               'evaluated inside Coq; the property oracle is also evaluated directly on the real runs.')
 LEVEL_NOTE = ('Trusted: Coq kernel; hand-written model (validated each run against the code on exhaustive small state '
               'spaces and random runs); reference loop standing for the sequential driver; float halving exact below 2^53. '
-              'ifs / clang / gcda share BinaryState; their external tools are stand-ins: IfPass (unifdef with nesting, #else, #elif) and '
-              'GCDABinaryPass (gcov-dump, records of different sizes) are checked by the oracle on monotone runs, without a Coq model of the tool.')
+              'ifs / clang share BinaryState; their external tools are stand-ins: IfPass (unifdef with nesting, #else, #elif) is checked by the oracle on monotone runs, without a Coq model of the tool. '
+              'GCDABinaryPass: transform, offsets and restarting loop are modelled (Passes/Gcda.v) and compared with the real pass on every candidate and run; gcov-dump itself is a stand-in, assumed to report the start offset of every function record.')
 TECHNIQUE = 'Rocq proof by induction on a lexicographic measure + model/implementation correspondence (vm_compute) + oracle search'
